@@ -14,68 +14,75 @@ import (
 type verdicts struct {
 	r    *run
 	seen map[string]bool
+	// se: the session being judged (nil: clauses about the TNC link and the port)
+	se *sess
 }
 
+// add records a violation. Signatures do not name the session: the first
+// session's are the ones known_findings.json lists, and the same defect in a
+// later session is the same finding; the message says which session it was.
 func (v *verdicts) add(oracle, detail, format string, a ...any) {
 	sig := oracle + "/" + detail
 	if v.seen[sig] {
 		return
 	}
 	v.seen[sig] = true
-	v.r.sim.Violate(prop13, oracle, detail, format+" ["+v.r.describe()+"]", a...)
+	ctx := v.r.describe()
+	if v.se != nil && v.se.idx > 0 {
+		ctx += "; " + v.r.describeSess(v.se)
+	}
+	v.r.sim.Violate(prop13, oracle, detail, format+" ["+ctx+"]", a...)
 }
 
 func regKey(port int, call string) string { return fmt.Sprintf("%d/%s", clamp(port, 0, 255), call) }
 
+// judge is what the clauses of one run share.
+type judge struct {
+	v                    *verdicts
+	sn                   agwtnc.Snapshot
+	cutFired             bool
+	relaxedRun           bool
+	linkClosedUnprovoked bool
+	blocking             bool
+	tncCloseAt           time.Duration
+	tncCloseCalled       bool
+}
+
 // check is the C13 oracle. It runs after everything has quiesced.
 func (r *run) check(cutFired bool) (nonTrivial bool) {
-	p, sim := r.p, r.sim
-	sess := r.session()
-	if sess == nil {
+	p := r.p
+	mdl := r.session()
+	if mdl == nil {
 		return false
 	}
-	sn := sess.Snapshot()
+	sn := mdl.Snapshot()
 	r.mu.Lock()
 	defer r.mu.Unlock()
 	v := &verdicts{r: r, seen: map[string]bool{}}
-	regime := p.Regime
+	j := &judge{v: v, sn: sn, cutFired: cutFired}
 
 	// relaxed: an injected fault fired; then a call may fail and unacknowledged
 	// data may be lost, but nothing wrong may be delivered and nothing may crash.
 	relaxed := r.faultFired || cutFired || sn.TNCClosed
+	j.relaxedRun = relaxed
 	cooperative := !relaxed && !p.TNC.RegisterFail && !p.TNC.NoCaps && !p.TNC.NoY && (p.TNC.Connect == "" || p.TNC.Connect == "accept")
-
-	// the connection under test as the model saw it
-	var mc *agwtnc.Conn
-	if r.have {
-		for i := range sn.Conns {
-			if sn.Conns[i].Key == r.key {
-				mc = &sn.Conns[i]
-			}
-		}
-	}
-	var discAt time.Duration // model-initiated disconnect of the connection (0: none)
-	if mc != nil {
-		discAt = mc.TNCDiscAt
-	}
 
 	// when did the client itself start closing things
 	firstOp := func(names ...string) (time.Duration, bool) {
 		for _, o := range r.ops {
 			for _, n := range names {
-				if o.Name == n {
+				if o.Name == n && o.Sess < 0 {
 					return o.Start, true
 				}
 			}
 		}
 		return 0, false
 	}
-	connCloseAt, connCloseCalled := firstOp("close")
 	tncCloseAt, tncCloseCalled := firstOp("tnc-close", "tncport-close", "port-close")
 	tncOnlyCloseAt, tncOnlyCloseCalled := firstOp("tnc-close", "tncport-close")
+	j.tncCloseAt, j.tncCloseCalled = tncCloseAt, tncCloseCalled
 
 	// ---- the library closed the TCP link although nobody asked it to --------
-	linkClosedUnprovoked := false
 	if r.hostClosedLink && !relaxed {
 		provoked := tncOnlyCloseCalled && tncOnlyCloseAt <= r.hostClosedAt
 		for _, o := range r.ops {
@@ -87,7 +94,7 @@ func (r *run) check(cutFired bool) (nonTrivial bool) {
 			}
 		}
 		if !provoked {
-			linkClosedUnprovoked = true
+			j.linkClosedUnprovoked = true
 			detail := "no-data-split"
 			if r.splitAtClose {
 				detail = "data-field-split"
@@ -108,10 +115,26 @@ func (r *run) check(cutFired bool) (nonTrivial bool) {
 	for _, pt := range local {
 		ports[pt] = true
 	}
-	remotes := map[string]bool{p.Remote: true, foreignCall: true}
+	remotes := map[string]bool{foreignCall: true}
+	for _, se := range r.ss {
+		remotes[se.sp.Remote] = true
+	}
+	// dialFor: the session whose Dial sent a connect request that reached the TNC
+	// at instant at: the latest dial of that station started before it (sessions
+	// with the same station never overlap)
+	dialFor := func(remote string, at time.Duration) *sess {
+		var best *sess
+		for _, se := range r.ss {
+			if se.sp.Mode != "accept" && se.sp.Remote == remote && se.attempted && se.attemptAt <= at {
+				best = se
+			}
+		}
+		return best
+	}
 	// blocking: TCP writes of the host take simulated time (write pacing), so two
 	// goroutines writing frames can interleave a header and a data field
 	blocking := len(p.Link.AB.WriteDelayUs) > 0
+	j.blocking = blocking
 	if sn.FramingErr != "" {
 		d := "framing-error"
 		if blocking {
@@ -182,18 +205,20 @@ func (r *run) check(cutFired bool) (nonTrivial bool) {
 				} else if strings.Contains(f.Note, "not-registered") {
 					v.add("exchange", "connect-with-refused-registration", "frame #%d %v: the TNC had refused (or dropped) the registration of %s", f.Seq, f.Frame, f.From)
 				}
-				if f.To == p.Remote {
+				if se := dialFor(f.To, f.At); se != nil {
+					digis := se.sp.Digis
+					v.se = se
 					want := byte('C')
-					if len(p.Digis) > 0 {
+					if len(digis) > 0 {
 						want = 'v'
 					}
 					if f.Kind != want {
-						v.add("host-frames", "wrong-connect-kind", "frame #%d %v: a connection with %d digipeaters needs a '%c' frame", f.Seq, f.Frame, len(p.Digis), want)
+						v.add("host-frames", "wrong-connect-kind", "frame #%d %v: a connection with %d digipeaters needs a '%c' frame", f.Seq, f.Frame, len(digis), want)
 					}
 					if f.Kind == 'v' {
-						ok := len(f.Data) == 1+10*len(p.Digis) && int(f.Data[0]) == len(p.Digis)
+						ok := len(f.Data) == 1+10*len(digis) && int(f.Data[0]) == len(digis)
 						if ok {
-							for i, d := range p.Digis {
+							for i, d := range digis {
 								field := f.Data[1+10*i : 11+10*i]
 								want := make([]byte, 10)
 								copy(want, d)
@@ -203,9 +228,10 @@ func (r *run) check(cutFired bool) (nonTrivial bool) {
 							}
 						}
 						if !ok {
-							v.add("host-frames", "bad-via-data", "frame #%d %v: data %q is not the count byte followed by the %d digipeaters %v as 10-byte fields in order", f.Seq, f.Frame, f.Data, len(p.Digis), p.Digis)
+							v.add("host-frames", "bad-via-data", "frame #%d %v: data %q is not the count byte followed by the %d digipeaters %v as 10-byte fields in order", f.Seq, f.Frame, f.Data, len(digis), digis)
 						}
 					}
+					v.se = nil
 				}
 			}
 		case 'Y':
@@ -220,9 +246,9 @@ func (r *run) check(cutFired bool) (nonTrivial bool) {
 		}
 	}
 
-	// ---- registration / dial / accept exchanges ----------------------------
+	// ---- registration exchange ---------------------------------------------
 	for _, o := range r.ops {
-		if !o.Done || o.Panicked {
+		if !o.Done || o.Panicked || o.Sess >= 0 {
 			continue
 		}
 		switch o.Name {
@@ -238,32 +264,131 @@ func (r *run) check(cutFired bool) (nonTrivial bool) {
 					v.add("exchange", "register-refused-but-succeeded", "%s succeeded although the TNC answered the 'X' frame with 0 (refused)", o.Name)
 				}
 			}
+		}
+	}
+
+	// ---- unexpected failures of the calls on the TNC and the port ----------
+	// (the calls of a session are judged with the session)
+	if cooperative {
+		slow := r.slowLink(nil)
+		for _, o := range r.ops {
+			if !o.Done || o.Panicked || o.Err == "" || linkDownBy(o.End) || o.Sess >= 0 {
+				continue
+			}
+			if slow && (strings.Contains(o.Err, "timeout") || strings.Contains(o.Err, "deadline exceeded")) {
+				continue
+			}
+			closing := tncCloseCalled && tncCloseAt <= o.End
+			bad := false
+			switch o.Name {
+			case "open":
+				bad = true
+			case "register", "open-port":
+				bad = true
+			case "register2":
+				bad = p.Second != nil && !(p.Second.Call == p.MyCall && clamp(p.Second.Port, 0, 255) == clamp(p.Port, 0, 255))
+			case "version", "ping":
+				bad = !p.TNC.NoVersion && !closing
+			}
+			if bad {
+				v.add("unexpected-error", o.Name+"/"+p.Regime, "%s failed with %q at %v although the TNC was healthy and answered every request", o.Name, o.Err, o.End)
+			}
+		}
+	}
+
+	// ---- every session ------------------------------------------------------
+	for _, se := range r.ss {
+		if !se.attempted {
+			continue
+		}
+		v.se = se
+		if r.checkSession(j, se) {
+			nonTrivial = true
+		}
+	}
+	v.se = nil
+	return nonTrivial
+}
+
+// slowLink: can the backlog of a link direction exceed a second? The library's
+// own time-outs (3 s version, 30 s poll, 1 min flush/close) are implementation
+// constants; on such a link a time-out says nothing about correctness, so it is
+// not demanded there. se == nil: the whole run; else the sessions that can run
+// at the same time as se.
+func (r *run) slowLink(se *sess) bool {
+	p := r.p
+	hostBytes, tncBytes := 40*agwtnc.HeaderLen, 40*agwtnc.HeaderLen
+	for _, o := range r.ss {
+		if se != nil && o.group != se.group {
+			continue
+		}
+		for _, w := range o.writes {
+			hostBytes += len(w.Data) + 4*agwtnc.HeaderLen
+		}
+		for _, f := range o.frames() {
+			tncBytes += clamp(f, 1, 2048) + agwtnc.HeaderLen
+		}
+	}
+	return worstTransit(p.Link.AB, hostBytes) > time.Second || worstTransit(p.Link.BA, tncBytes) > time.Second
+}
+
+// checkSession judges one session: the clauses about its connect exchange, its
+// calls, the two byte streams of its connection, polling, Flush and Close.
+func (r *run) checkSession(j *judge, se *sess) (nonTrivial bool) {
+	p, sim, v, sn, sp := r.p, r.sim, j.v, j.sn, se.sp
+	regime := p.Regime
+	// A malformed transmission that fired after the session was over does not
+	// relax the session; a link cut does (its instant is not recorded).
+	relaxed := j.cutFired || ((r.faultFired || sn.TNCClosed) && !(se.ended && se.endedAt < r.faultAt))
+	cooperative := !relaxed && !p.TNC.RegisterFail && !p.TNC.NoCaps && !p.TNC.NoY && (sp.Connect == "" || sp.Connect == "accept")
+	linkClosedUnprovoked := j.linkClosedUnprovoked
+	tncCloseAt, tncCloseCalled := j.tncCloseAt, j.tncCloseCalled
+	linkDownBy := func(t time.Duration) bool { return r.hostClosedLink && r.hostClosedAt <= t }
+	blocking := j.blocking
+	mine := func(o *opRec) bool { return o.Sess == se.idx }
+
+	// the connection of the session as the model saw it
+	var mc *agwtnc.Conn
+	if se.have && se.id >= 0 && se.id < len(sn.Conns) {
+		mc = &sn.Conns[se.id]
+	}
+	var discAt time.Duration // model-initiated disconnect of the connection (0: none)
+	if mc != nil {
+		discAt = mc.TNCDiscAt
+	}
+	var connCloseAt time.Duration
+	connCloseCalled := false
+	for i := range r.ops {
+		if o := &r.ops[i]; mine(o) && o.Name == "close" {
+			connCloseAt, connCloseCalled = o.Start, true
+			break
+		}
+	}
+
+	// ---- dial / accept exchanges -------------------------------------------
+	for i := range r.ops {
+		o := &r.ops[i]
+		if !mine(o) || !o.Done || o.Panicked {
+			continue
+		}
+		switch o.Name {
 		case "dial":
 			if o.Err == "" && (mc == nil || mc.Inbound || mc.ConnectedAt == 0 || mc.ConnectedAt > o.End) {
 				v.add("exchange", "dial-succeeded-without-connect", "Dial returned a connection but the TNC had not reported any connection established")
 			}
 		case "accept":
-			if o.Err == "" && !r.inboundSent {
+			if o.Err == "" && !se.inboundSent {
 				v.add("exchange", "accept-without-inbound", "Accept returned a connection but the TNC never announced one")
 			}
 		}
 	}
 
 	// ---- unexpected failures on a healthy, cooperative TNC ------------------
-	// The library's own time-outs (3 s version, 30 s poll, 1 min flush/close) are
-	// implementation constants; on a link whose backlog can exceed a second a
-	// time-out says nothing about correctness, so it is not demanded there.
-	hostBytes, tncBytes := 40*agwtnc.HeaderLen, 40*agwtnc.HeaderLen
-	for _, w := range r.writes {
-		hostBytes += len(w.Data) + 4*agwtnc.HeaderLen
-	}
-	for _, f := range p.Script.Frames {
-		tncBytes += clamp(f, 1, 2048) + agwtnc.HeaderLen
-	}
-	slowLink := worstTransit(p.Link.AB, hostBytes) > time.Second || worstTransit(p.Link.BA, tncBytes) > time.Second
 	if cooperative {
-		for _, o := range r.ops {
-			if !o.Done || o.Panicked || o.Err == "" || linkDownBy(o.End) {
+		slowLink := r.slowLink(se)
+		for i := range r.ops {
+			o := &r.ops[i]
+			if !mine(o) || !o.Done || o.Panicked || o.Err == "" || linkDownBy(o.End) {
 				continue
 			}
 			if slowLink && (strings.Contains(o.Err, "timeout") || strings.Contains(o.Err, "deadline exceeded")) {
@@ -276,16 +401,18 @@ func (r *run) check(cutFired bool) (nonTrivial bool) {
 			}
 			bad := false
 			switch o.Name {
-			case "open", "listen":
-				bad = true
-			case "register", "open-port":
-				bad = true
-			case "register2":
-				bad = p.Second != nil && !(p.Second.Call == p.MyCall && clamp(p.Second.Port, 0, 255) == clamp(p.Port, 0, 255))
-			case "version", "ping":
+			case "listen":
+				bad = !closing
+				if se.idx == 0 {
+					bad = true
+				}
+			case "ping":
 				bad = !p.TNC.NoVersion && !closing
 			case "dial":
-				bad = p.DialTimeoutMs == 0 && !r.dialAbandoned
+				bad = sp.DialTimeoutMs == 0 && !se.dialAbandoned && !(tncCloseCalled && tncCloseAt <= o.End)
+				if se.idx == 0 {
+					bad = sp.DialTimeoutMs == 0 && !se.dialAbandoned
+				}
 			case "write":
 				bad = !closing && !connGone
 			case "flush":
@@ -310,7 +437,7 @@ func (r *run) check(cutFired bool) (nonTrivial bool) {
 		}
 	}
 	var ws []wr
-	for _, w := range r.writes {
+	for _, w := range se.writes {
 		x := wr{data: w.Data, optional: true}
 		if w.Op >= 0 {
 			o := r.ops[w.Op]
@@ -318,7 +445,7 @@ func (r *run) check(cutFired bool) (nonTrivial bool) {
 				if w.N != len(w.Data) {
 					v.add("write-stream", "short-write-without-error", "Write of %d bytes returned n=%d and a nil error", len(w.Data), w.N)
 				}
-				x.optional = (discAt > 0 && discAt <= o.End) || (connCloseCalled && connCloseAt <= o.End && r.closerStarted)
+				x.optional = (discAt > 0 && discAt <= o.End) || (connCloseCalled && connCloseAt <= o.End && se.closerStarted)
 			}
 		}
 		ws = append(ws, x)
@@ -346,8 +473,9 @@ func (r *run) check(cutFired bool) (nonTrivial bool) {
 	// ---- Y polling, Flush, Close -------------------------------------------
 	if mc != nil && !relaxed && !p.TNC.NoY {
 		inWin := func(t, a, b time.Duration) bool { return t >= a && t <= b }
-		for _, o := range r.ops {
-			if !o.Done || o.Panicked || o.Err != "" {
+		for i := range r.ops {
+			o := &r.ops[i]
+			if !mine(o) || !o.Done || o.Panicked || o.Err != "" {
 				continue
 			}
 			switch o.Name {
@@ -360,7 +488,7 @@ func (r *run) check(cutFired bool) (nonTrivial bool) {
 					v.add("exchange", "write-without-Y-poll", "a successful Write (%v..%v) did not ask the TNC for the outstanding frames of the connection", o.Start, o.End)
 				}
 			case "flush":
-				if r.closerStarted && r.closerStartedAt <= o.End {
+				if se.closerStarted && se.closerStartedAt <= o.End {
 					continue
 				}
 				polled, zero, waited := false, false, false
@@ -385,8 +513,9 @@ func (r *run) check(cutFired bool) (nonTrivial bool) {
 		}
 	}
 	if mc != nil && !relaxed {
-		for _, o := range r.ops {
-			if o.Name != "close" {
+		for i := range r.ops {
+			o := &r.ops[i]
+			if !mine(o) || o.Name != "close" {
 				continue
 			}
 			pulled := tncCloseCalled && tncCloseAt <= o.End     // the application closed the port or the TNC under the Close call
@@ -405,7 +534,7 @@ func (r *run) check(cutFired bool) (nonTrivial bool) {
 			sent = append(sent, pl...)
 		}
 	}
-	rd := r.readData
+	rd := se.readData
 	if len(rd) > 0 {
 		nonTrivial = true
 	}
@@ -415,34 +544,55 @@ func (r *run) check(cutFired bool) (nonTrivial bool) {
 			frames = mc.SentPayloads
 		}
 		class := classifyRead(rd, frames)
-		if !relaxed || class == "wrong-bytes" || strings.HasPrefix(class, "foreign-delivered") {
+		if class == "wrong-bytes" {
+			// bytes of another connection of the run?
+			m := firstDiff(rd, sent)
+			if w := min(12, len(rd)-m); w >= 6 {
+				for _, o := range r.ss {
+					if o == se || !o.have || o.id < 0 || o.id >= len(sn.Conns) {
+						continue
+					}
+					var other []byte
+					for _, pl := range sn.Conns[o.id].SentPayloads {
+						other = append(other, pl...)
+					}
+					if bytes.Contains(other, rd[m:m+w]) {
+						class = "other-session-delivered"
+					}
+				}
+			}
+		}
+		if !relaxed || class == "wrong-bytes" || class == "other-session-delivered" || strings.HasPrefix(class, "foreign-delivered") {
 			m := firstDiff(rd, sent)
 			v.add("read-stream", class+"/"+regime, "Read returned %d bytes; they differ at offset %d from the %d bytes of 'D' payload the TNC sent for the connection (read %q..., sent %q...)", len(rd), m, len(sent), clip(rd[m:], 24), clip(sent[min(m, len(sent)):], 24))
 		}
-	} else if !relaxed && !linkClosedUnprovoked && r.readDone && r.readErr == "EOF" {
-		clientClosedBefore := (connCloseCalled && connCloseAt <= r.readDoneAt) || (tncCloseCalled && tncCloseAt <= r.readDoneAt)
+	} else if !relaxed && !linkClosedUnprovoked && se.readDone && se.readErr == "EOF" {
+		clientClosedBefore := (connCloseCalled && connCloseAt <= se.readDoneAt) || (tncCloseCalled && tncCloseAt <= se.readDoneAt)
 		switch {
 		case clientClosedBefore:
-		case (discAt == 0 || r.readDoneAt < discAt) && mc != nil && len(mc.HostDiscAt) > 0 && mc.HostDiscAt[0] <= r.readDoneAt:
-			v.add("read-stream", "eof-after-unrequested-disconnect/"+regime, "Read returned EOF at %v because the library itself had sent a 'd' frame for the connection at %v, although the application had not called Close (dial deadline %d ms)", r.readDoneAt, mc.HostDiscAt[0], p.DialTimeoutMs)
-		case discAt == 0 || r.readDoneAt < discAt:
-			v.add("read-stream", "eof-without-disconnect/"+regime, "Read returned EOF at %v although neither side had ended the connection", r.readDoneAt)
+		case (discAt == 0 || se.readDoneAt < discAt) && mc != nil && len(mc.HostDiscAt) > 0 && mc.HostDiscAt[0] <= se.readDoneAt:
+			v.add("read-stream", "eof-after-unrequested-disconnect/"+regime, "Read returned EOF at %v because the library itself had sent a 'd' frame for the connection at %v, although the application had not called Close (dial deadline %d ms)", se.readDoneAt, mc.HostDiscAt[0], sp.DialTimeoutMs)
+		case discAt == 0 || se.readDoneAt < discAt:
+			v.add("read-stream", "eof-without-disconnect/"+regime, "Read returned EOF at %v although neither side had ended the connection", se.readDoneAt)
 		case len(rd) < len(sent):
 			v.add("read-stream", "missing-tail-at-eof/"+regime, "Read returned EOF after %d of the %d bytes the TNC sent before the remote station disconnected", len(rd), len(sent))
 		default:
 			if len(sent) > 0 && cooperative && regime == "paced" {
 				sim.Probe("strict-complete-paced")
+				if se.idx > 0 {
+					sim.Probe("strict-complete-paced-later-session")
+				}
 			}
 		}
 	}
-	if bytes.HasPrefix(sent, rd) && !relaxed && !linkClosedUnprovoked && r.settled && r.settledRead < r.settledSent &&
-		!(connCloseCalled && connCloseAt <= r.settledAt) && !(tncCloseCalled && tncCloseAt <= r.settledAt) &&
-		!(r.readDone && r.readDoneAt <= r.settledAt) {
-		v.add("read-stream", "undelivered-tail/"+regime, "the reader was waiting in Read at %v with nothing in flight, yet only %d of the %d bytes the TNC had sent for the connection had been returned", r.settledAt, r.settledRead, r.settledSent)
+	if bytes.HasPrefix(sent, rd) && !relaxed && !linkClosedUnprovoked && se.settled && se.settledRead < se.settledSent &&
+		!(connCloseCalled && connCloseAt <= se.settledAt) && !(tncCloseCalled && tncCloseAt <= se.settledAt) &&
+		!(se.readDone && se.readDoneAt <= se.settledAt) {
+		v.add("read-stream", "undelivered-tail/"+regime, "the reader was waiting in Read at %v with nothing in flight, yet only %d of the %d bytes the TNC had sent for the connection had been returned", se.settledAt, se.settledRead, se.settledSent)
 	}
-	if r.readDone && strings.HasPrefix(r.readErr, "error:") && cooperative && !linkDownBy(r.readDoneAt) &&
-		!(connCloseCalled && connCloseAt <= r.readDoneAt) && !(tncCloseCalled && tncCloseAt <= r.readDoneAt) {
-		v.add("unexpected-error", "read/"+regime, "Read failed with %q on a healthy connection", r.readErr)
+	if se.readDone && strings.HasPrefix(se.readErr, "error:") && cooperative && !linkDownBy(se.readDoneAt) &&
+		!(connCloseCalled && connCloseAt <= se.readDoneAt) && !(tncCloseCalled && tncCloseAt <= se.readDoneAt) {
+		v.add("unexpected-error", "read/"+regime, "Read failed with %q on a healthy connection", se.readErr)
 	}
 	return nonTrivial
 }
